@@ -242,6 +242,31 @@ def _menus():
             lambda n=n, b=b, rw=rw, **k: E.Knapsack(
                 generator=KGen(num_items=n, total_budget=b),
                 reward_fn=KDense() if rw == "dense" else KSparse()), items=n, budget=b, reward=rw)
+    def _knapsack_quantised(n, budget):
+        """Harness-side subclass of the public abstract Generator: weights are multiples of 1/8 (exactly
+        representable), so items that fill the remaining budget *exactly* occur all the time - a boundary the
+        uniform RandomGenerator never produces."""
+        import jax
+        import jax.numpy as jnp
+
+        from jumanji.environments.packing.knapsack.generator import Generator
+        from jumanji.environments.packing.knapsack.types import State
+
+        class Quantised(Generator):
+            def __call__(self, key):
+                key, k1, k2 = jax.random.split(key, 3)
+                weights = jax.random.randint(k1, (self.num_items,), 1, 9).astype(jnp.float32) / 8.0
+                values = jax.random.randint(k2, (self.num_items,), 1, 9).astype(jnp.float32) / 8.0
+                return State(weights=weights, values=values, packed_items=jnp.zeros(self.num_items, dtype=bool),
+                             remaining_budget=jnp.array(self.total_budget, float), key=key)
+
+        return Quantised(n, budget)
+
+    for n, b, rw in ((8, 2.0, "dense"), (8, 2.0, "sparse")):
+        add("Knapsack", f"q{n}{rw[0]}",
+            lambda n=n, b=b, rw=rw, **k: E.Knapsack(generator=_knapsack_quantised(n, b),
+                                                    reward_fn=KDense() if rw == "dense" else KSparse()),
+            items=n, budget=b, reward=rw, gen="quantised")
     for r, c, t in ((10, 10, 400), (4, 4, 3), (6, 5, 7), (5, 12, 2), (10, 10, 1), (6, 5, 400)):
         add("Tetris", f"r{r}c{c}t{t}",
             lambda r=r, c=c, t=t, time_limit=None, **k: E.Tetris(
@@ -379,7 +404,7 @@ QUICK = {
     "Game2048": ["b3", "b4"], "GraphColoring": ["n6p8", "n20p8"], "Minesweeper": ["r3c5m3", "default"],
     "RubiksCube": ["n2s1t3", "n3s7t7"], "SlidingTilePuzzle": ["g3m50t7d", "g2m1t3s"],
     "Sudoku": ["veryeasy", "dummy"], "BinPack": ["r10e20s2", "r5e10s1o6"], "FlatPack": ["r2c3b", "r3c2c"],
-    "JobShop": ["j3m2o3d2", "j5m4o4d4"], "Knapsack": ["n10s", "n50d"], "Tetris": ["r6c5t400", "r10c10t400"],
+    "JobShop": ["j3m2o3d2", "j5m4o4d4"], "Knapsack": ["n10s", "n50d", "q8d"], "Tetris": ["r6c5t400", "r10c10t400"],
     "Cleaner": ["r3c7a1t7", "r5c11a2tNone", "r3c3a2tNone"], "Connector": ["g5a2t7rw", "g6a3t50rw"],
     "CVRP": ["n5s", "n20d"], "LevelBasedForaging": ["g6a2f2v2l2cVNp0t100", "g8a3f3v3l3nGRp5t100", "g5a1f1v5l2nVNp0t7"],
     "Maze": ["r4c7tNone", "r5c5t7"], "MMST": ["n12e18a2k3t7", "n12e18a3k2t30"], "MultiCVRP": ["c6v2d", "c6v3s"],
